@@ -16,6 +16,7 @@ TRUSTED_BASE = BASE_TRUSTED + [
 ]
 RULE = ('kernel cases: seeded random unit directions/normals, index pairs in [1,4], radii of both signs, '
         'conics incl. 0/-1, axis-parallel rays (a==0 branch), misses and TIR (~15%); non-trivial = finite result')
+COQ_TARGETS = ['Model/Trace.vo']
 PARTIAL = ['conic sheet selection: the hit is proved to lie on the quadric; that it is the sag sheet is a hypothesis of std_normal_parallel_gradient']
 
 
@@ -73,20 +74,131 @@ def kernel_cases(ctx):
     yield 'plane_distance', pl, {}
 
 
+
+def _lens_cases(ctx, nl, rays_per):
+    import random, warnings
+    import lensgen, tracecorr
+    warnings.simplefilter('ignore')
+    rng = random.Random(ctx.seed * 7 + 2)
+    cases = []
+    hist = {'lenses': 0, 'build_errors': {}, 'trace_errors': {}, 'shapes': {}, 'mirrors': 0, 'tilted': 0,
+            'finite_rays': 0, 'nonfinite_rays': 0}
+    for li in range(nl):
+        spec = lensgen.gen_spec(rng)
+        try:
+            o = lensgen.build(spec)
+        except Exception as e:
+            hist['build_errors'][type(e).__name__] = hist['build_errors'].get(type(e).__name__, 0) + 1
+            continue
+        hist['lenses'] += 1
+        for wv, _ in spec['wavelengths'][:1]:
+            surfs = lensgen.model_surfaces(o, wv)
+            for s in surfs:
+                hist['shapes'][s['shape'][0]] = hist['shapes'].get(s['shape'][0], 0) + 1
+                hist['mirrors'] += int(s['refl'])
+                hist['tilted'] += int(bool(s['rx'] or s['ry']))
+            for ri in range(rays_per):
+                Hy = rng.choice([0.0, 1.0, rng.uniform(-1, 1)])
+                Hx = rng.choice([0.0, 0.0, rng.uniform(-1, 1)])
+                rr, th = rng.choice([0.3, 0.7, 1.0, 1.4 if ri % 5 == 4 else 0.9]), rng.uniform(0, 6.283)
+                import math
+                Px, Py = rr * math.cos(th), rr * math.sin(th)
+                r = tracecorr.impl_trace(o, Hx, Hy, Px, Py, wv)
+                if r[0] == 'err':
+                    hist['trace_errors'][r[1]] = hist['trace_errors'].get(r[1], 0) + 1
+                    if r[1] == 'ValueError' and any(s['shape'][0] == 'cheb' for s in surfs):
+                        # Chebyshev domain error: the model must also refuse (launch unknown -> skip)
+                        pass
+                    continue
+                recs = r[1]
+                fin = all(math.isfinite(v) for v in recs[-1][:6])
+                hist['finite_rays' if fin else 'nonfinite_rays'] += 1
+                cases.append(dict(surfs=surfs, w=wv, launch=recs[0], expect=recs[1:], recs=recs, spec=spec,
+                                  ray=[Hx, Hy, Px, Py, wv]))
+    return cases, hist
+
+
 def system_checks(ctx):
-    return []
+    import tracecorr, oracles
+    nl, rp = ctx.n(40, 500), ctx.n(4, 8)
+    cases, hist = _lens_cases(ctx, nl, rp)
+    # (a) hand model Model/Trace.v against the implementation, per surface x y z L M N intensity opd
+    res = {'name': 'trace-model-vs-implementation', 'n': len(cases), 'histogram': hist,
+           'nontrivial': 0, 'samples': [], 'disagreements': []}
+    try:
+        ok, raw = tracecorr.run(cases, tol=1e-9, tag='C02trace')
+    except RuntimeError as e:
+        res['error'] = str(e)
+        yield res
+        return
+    seen = set()
+    for c, good in zip(cases, ok):
+        key = (tuple(c['launch']), len(c['surfs']))
+        import math
+        if all(math.isfinite(v) for v in c['expect'][-1][:6]) and key not in seen:
+            seen.add(key)
+            res['nontrivial'] += 1
+        bad = oracles.check_trace(c['surfs'], c['recs'])
+        if not good or bad:
+            res['disagreements'].append({'spec': c['spec'], 'ray': c['ray'], 'model_agrees': bool(good),
+                                         'oracle': bad[:4], 'violates_property': bool(bad)})
+    if cases:
+        c = cases[0]
+        res['samples'].append({'ray(Hx,Hy,Px,Py,w)': c['ray'], 'surfaces': [s['shape'][0] for s in c['surfs']],
+                               'image_record': c['expect'][-1]})
+    yield res
 
 
 def search(ctx, broken, disagreements):
+    """Snell / on-surface / path-length oracle on the implementation, seeded sweep"""
+    import oracles
+    cases, hist = _lens_cases(ctx, ctx.n(60, 600), 6)
+    for c in cases:
+        bad = oracles.check_trace(c['surfs'], c['recs'])
+        if bad:
+            return {'spec': c['spec'], 'ray': c['ray'], 'oracle': bad[:4], 'violates_property': True}
     return None
+
+
+
+CHEB_REPLAY = {
+    'object_thickness': float('inf'),
+    'surfaces': [{'type': 'chebyshev', 'radius': 60.0, 'conic': 0.0, 'thickness': 5.0, 'is_stop': True,
+                  'coefficients': [[0.0, 0.02], [0.03, 0.01]], 'norm_x': 40.0, 'norm_y': 50.0,
+                  'material': ['ideal', 1.6, 0.0]},
+                 {'type': 'standard', 'radius': -80.0, 'thickness': 60.0, 'material': 'air'}],
+    'aperture': ['EPD', 8.0], 'field_type': 'angle', 'fields': [[0.0, 0.0, 0.0, 0.0]],
+    'wavelengths': [[0.55, True]], 'telecentric': False}
 
 
 def matches_finding(w, f):
-    return False
+    """a witness is the listed Chebyshev finding only if EVERY oracle complaint is a Snell/half-space
+    residual at a Chebyshev surface whose normalisation differs from 1"""
+    if f['id'] != 'chebyshev-normal-norm':
+        return False
+    orc = w.get('oracle') or []
+    if not orc:
+        return False
+    for v in orc:
+        if not isinstance(v, dict) or v.get('shape') != 'cheb' or v.get('kind') not in ('snell', 'halfspace'):
+            return False
+        sp = w['spec']['surfaces'][v['surface'] - 1] if v['surface'] - 1 < len(w['spec']['surfaces']) else {}
+        if sp.get('norm_x', 1) == 1 and sp.get('norm_y', 1) == 1:
+            return False
+    return True
 
 
 def replay_finding(ctx, f):
-    return None
+    import lensgen, tracecorr, oracles, warnings
+    warnings.simplefilter('ignore')
+    if f['id'] != 'chebyshev-normal-norm':
+        return None
+    o = lensgen.build(CHEB_REPLAY)
+    r = tracecorr.impl_trace(o, 0.0, 0.0, 0.3, 0.6, 0.55)
+    if r[0] != 'ok':
+        return None
+    bad = oracles.check_trace(lensgen.model_surfaces(o, 0.55), r[1])
+    return any(v['kind'] == 'snell' and v['shape'] == 'cheb' for v in bad)
 
 
 def broken_explained(b, known, witnesses):
